@@ -233,3 +233,159 @@ def publication_structural(rep, prop='C20'):
                                     'publications': [(i, s) for i, s, _ in pubs],
                                     'verifier_output': 'a publication precedes (or is nested in) the fill: another thread '
                                                        'sharing this line object can observe a partially filled index'})
+
+
+# ---------------------------------------------------------------------------------------------------------------------
+# C06.units (structural): AST column fields are BYTE offsets, FST coordinates are CHARACTER columns.  Every value stored
+# into a col_offset / end_col_offset field, or handed to _set_start_pos / _set_end_pos as a column, must be a byte
+# quantity by construction.
+
+BYTE_PARAM_HINTS = ('col_offset', 'colo', 'col_delta', 'dcol')   # naming convention of byte-valued parameters / locals
+ASCII_NAMES = {'quotes', 'op_len'}                                 # lengths of ASCII-only tokens (quotes, operators)
+
+
+def _is_byte_expr(fn, e, depth=0):
+    import ast
+    if depth > 4:
+        return False
+    if isinstance(e, ast.Constant) and isinstance(e.value, int):
+        return True
+    if isinstance(e, ast.Attribute):
+        return e.attr in ('col_offset', 'end_col_offset', 'lenbytes')
+    if isinstance(e, ast.Subscript):
+        return isinstance(e.slice, ast.Constant) and e.slice.value in ('col_offset', 'end_col_offset')
+    if isinstance(e, ast.Call):
+        f = e.func
+        if isinstance(f, ast.Attribute) and f.attr == 'c2b':
+            return True
+        if isinstance(f, ast.Name) and f.id == 'len' and e.args:
+            a = e.args[0]
+            if isinstance(a, ast.Call) and isinstance(a.func, ast.Attribute) and a.func.attr == 'encode':
+                return True
+            if isinstance(a, ast.Name) and a.id in ASCII_NAMES:
+                return True
+        return False
+    if isinstance(e, ast.BinOp) and isinstance(e.op, (ast.Add, ast.Sub)):
+        return _is_byte_expr(fn, e.left, depth + 1) and _is_byte_expr(fn, e.right, depth + 1)
+    if isinstance(e, ast.NamedExpr):
+        return _is_byte_expr(fn, e.value, depth + 1)
+    if isinstance(e, ast.UnaryOp) and isinstance(e.op, (ast.USub, ast.UAdd)):
+        return _is_byte_expr(fn, e.operand, depth + 1)
+    if isinstance(e, ast.IfExp):
+        return _is_byte_expr(fn, e.body, depth + 1) and _is_byte_expr(fn, e.orelse, depth + 1)
+    if isinstance(e, ast.Name):
+        if e.id in ASCII_NAMES or any(h in e.id for h in BYTE_PARAM_HINTS):
+            return True
+        defs = []
+        for n in ast.walk(fn):
+            if isinstance(n, ast.Assign):
+                for t in n.targets:
+                    if isinstance(t, ast.Name) and t.id == e.id:
+                        defs.append(n.value)
+                    elif isinstance(t, ast.Tuple) and any(isinstance(x, ast.Name) and x.id == e.id for x in t.elts):
+                        defs.append(None)
+            elif isinstance(n, ast.NamedExpr) and isinstance(n.target, ast.Name) and n.target.id == e.id:
+                defs.append(n.value)
+        return bool(defs) and all(d is not None and _is_byte_expr(fn, d, depth + 1) for d in defs)
+    return False
+
+
+def units_structural(rep, prop='C06'):
+    import ast
+    import glob
+    import os
+    from pyvc import frontend
+    sites, skipped = [], []
+    for path in sorted(glob.glob(os.path.join(frontend.SRC, '*.py'))):
+        mod = os.path.basename(path)[:-3]
+        if mod == 'asttypes':
+            continue       # plain constructors copying their parameters
+        tree = frontend.module(mod).tree
+        for fn in ast.walk(tree):
+            if not isinstance(fn, (ast.FunctionDef, ast.AsyncFunctionDef)):
+                continue
+            for n in ast.walk(fn):
+                vals = []
+                if isinstance(n, ast.Assign):
+                    if any(isinstance(t, ast.Attribute) and t.attr in ('col_offset', 'end_col_offset') for t in n.targets):
+                        vals.append(('store', n.value, n.lineno))
+                elif isinstance(n, ast.AugAssign) and isinstance(n.target, ast.Attribute) \
+                        and n.target.attr in ('col_offset', 'end_col_offset'):
+                    vals.append(('store', n.value, n.lineno))
+                elif isinstance(n, ast.Call) and isinstance(n.func, ast.Attribute) \
+                        and n.func.attr in ('_set_start_pos', '_set_end_pos') and len(n.args) >= 2:
+                    vals.append(('setter', n.args[1], n.lineno))
+                    if len(n.args) >= 4:
+                        vals.append(('setter_old', n.args[3], n.lineno))
+                elif isinstance(n, ast.Call) and isinstance(n.func, ast.Attribute) and n.func.attr == '_offset' \
+                        and len(n.args) >= 4 and not any(isinstance(a, ast.Starred) for a in n.args[:4]):
+                    vals.append(('offset_dcol', n.args[3], n.lineno))     # _offset(ln, col, dln, dcol_offset, ...): byte delta
+                for kind, v, lineno in vals:
+                    sites.append([mod, fn.name, lineno - fn.lineno, kind, ast.unparse(v)[:60], _is_byte_expr(fn, v), lineno])
+
+    class _S:
+        name = 'unit discipline (structural): AST column fields receive byte quantities'
+        notes = ('byte expression ::= int constant | x.c2b(..) | .col_offset | .end_col_offset | .lenbytes | len(..encode()) | '
+                 "loc['..col_offset'] | byte +/- byte | a local all of whose definitions are byte expressions | a name "
+                 f'following the naming convention {BYTE_PARAM_HINTS} | lengths of ASCII tokens {sorted(ASCII_NAMES)}')
+    seen = set()
+    n_ok = 0
+    # ordinal of the site within its function, in source order: the identity of a site across edits of its expression
+    sites.sort(key=lambda t: (t[0], t[1], t[6]))
+    counts = {}
+    baseline = _units_baseline()
+    for site in sites:
+        mod, fname, rel, kind, text, ok, _ = site
+        k = (mod, fname)
+        counts[k] = counts.get(k, 0) + 1
+        ident = f'{mod}.{fname}#{counts[k]}'
+        site.append(ident)
+        if not ok and ident not in baseline:
+            skipped.append((mod, fname, rel, text))
+            continue
+        key = f'{prop}.units.{ident}'
+        if (mod, fname) not in seen:
+            seen.add((mod, fname))
+            try:
+                rep.function(frontend.locate(f'{mod}:{fname}'), _S)
+            except Exception:
+                pass
+        rep.other('structural', key, ok, detail=f'{mod}:{fname} line +{rel}: {kind} of `{text}`', key=key,
+                  replay={'site': [mod, fname, rel, kind, text],
+                          'verifier_output': 'the value is not a byte quantity by construction (a character column written '
+                                             'into an AST byte offset breaks positions on lines with multi-byte text)'})
+        n_ok += ok
+    present = {t[7] for t in sites}
+    for ident in sorted(baseline - present):
+        rep.undecided(f'{prop}.units.{ident}', 'a column-field write site of the pinned tree is gone (function renamed or '
+                      'restructured): the obligation can no longer be generated')
+    rep.extra['units_sites'] = len(sites)
+    rep.extra['units_not_registered'] = [list(s) for s in skipped]
+    if len(sites) < 40:
+        rep.checker_error(f'only {len(sites)} column-field write sites found (anchor changed?)')
+    return sites, skipped
+
+
+def _units_baseline():
+    """sites for which the obligation held on the pinned tree (contracts/units_baseline.json, generated by hand with
+    `python3-vt -c "from contracts import k_bistr; k_bistr.write_units_baseline()"`): a later failure is a violation"""
+    import json
+    import os
+    p = os.path.join(os.path.dirname(os.path.abspath(__file__)), 'units_baseline.json')
+    try:
+        with open(p) as f:
+            return set(json.load(f))
+    except OSError:
+        return set()
+
+
+def write_units_baseline():
+    import json
+    import os
+    from pyvc import report
+    rep = report.Report('C06', 'quick', 0, 'proof', 'x')
+    sites, _ = units_structural(rep)
+    p = os.path.join(os.path.dirname(os.path.abspath(__file__)), 'units_baseline.json')
+    with open(p, 'w') as f:
+        json.dump(sorted(t[7] for t in sites if t[5]), f, indent=0)
+    print(len(sites), 'sites written')
